@@ -7,11 +7,13 @@ CONSTANTS
   Part = "ctl"
   Dims = {"dilation", "dc"}
   HOpts = {"temp", "hard", "gumbel", "disable"}
+  Forking = FALSE
 INVARIANT TypeOK
 INVARIANT FrozenNeverTrainable
 INVARIANT FrozenNeverGrad
 INVARIANT SamplerConsistent
 INVARIANT Partition
+INVARIANT IteratorsAgree
 INVARIANT NoDedupIsNotPartition
 PROPERTY TrainExact
 PROPERTY SetterExact
@@ -20,3 +22,4 @@ PROPERTY SelExact
 PROPERTY OthersKept
 PROPERTY LocalUpdate
 PROPERTY ObserverNeutral
+PROPERTY ForkExact
